@@ -401,6 +401,12 @@ fn dispatch(ctx: &Ctx, seed: u64, run: u64) -> RunOutcome {
     }
 }
 
+pub fn runner(tier: Tier, seed: u64) -> Option<(u64, Box<dyn Fn(u64) -> RunOutcome + Sync>)> {
+    let ctx = context(tier, seed).ok()?;
+    let n = ctx.runs512 + ctx.runs1024;
+    Some((n, Box::new(move |run| dispatch(&ctx, seed, run))))
+}
+
 pub fn rerun(tier: Tier, seed: u64, run: u64) -> Option<RunOutcome> {
     let ctx = context(tier, seed).ok()?;
     Some(dispatch(&ctx, seed, run))
